@@ -485,6 +485,137 @@ fn declared(text: &str) -> Vec<String> {
     t.windows(2).filter(|w| w[0] == "stel" || w[0] == "functie").map(|w| w[1].clone()).collect()
 }
 
+/// The store model: what a plain read of a global must yield, known only for globals whose every
+/// mention so far was a declaration or assignment of a literal (or a plain read) on a line that
+/// completed. Anything else mentioning a name (a computed value, a function body, a block, a second
+/// declaration, a line that failed) makes the name permanently unknown to the model.
+#[derive(Default)]
+struct Store {
+    known: std::collections::BTreeMap<String, String>,
+    declared: std::collections::BTreeSet<String>,
+    unknown: std::collections::BTreeSet<String>,
+}
+
+enum StoreOp {
+    Decl(String, Option<String>),
+    Assign(String, Option<String>),
+    Read(String),
+    Other,
+}
+
+fn is_ident(t: &str) -> bool {
+    !t.is_empty() && t.chars().all(|c| c.is_alphanumeric() || c == '_') && !t.chars().next().unwrap().is_ascii_digit() && !matches!(t, "ja" | "nee" | "stel" | "als" | "anders" | "zolang" | "functie" | "stop" | "volgende" | "antwoord")
+}
+
+/// the harness's rendering of a literal, if `src` is one the model understands
+fn literal_render(src: &str) -> Option<String> {
+    let t = src.trim();
+    if t == "ja" || t == "nee" {
+        return Some(t.to_string());
+    }
+    if t == "als nee { 1 }" || t == "als nee { 0 }" {
+        return Some("null".to_string());
+    }
+    if !t.is_empty() && t.len() < 16 && t.chars().all(|c| c.is_ascii_digit()) {
+        return t.parse::<u64>().ok().map(|v| v.to_string());
+    }
+    if t.len() >= 2 && t.starts_with('"') && t.ends_with('"') {
+        let inner = &t[1..t.len() - 1];
+        if inner.chars().all(|c| c.is_ascii_alphanumeric() || c == ' ') {
+            return Some(format!("\"{}\"", inner));
+        }
+    }
+    None
+}
+
+fn store_op(stmt: &str) -> StoreOp {
+    let t = stmt.trim().trim_end_matches(';').trim();
+    if is_ident(t) {
+        return StoreOp::Read(t.to_string());
+    }
+    if let Some((lhs, rhs)) = t.split_once(" = ") {
+        let lhs = lhs.trim();
+        if let Some(name) = lhs.strip_prefix("stel ") {
+            if is_ident(name.trim()) {
+                return StoreOp::Decl(name.trim().to_string(), literal_render(rhs));
+            }
+        } else if is_ident(lhs) {
+            return StoreOp::Assign(lhs.to_string(), literal_render(rhs));
+        }
+    }
+    StoreOp::Other
+}
+
+impl Store {
+    fn forget(&mut self, name: &str) {
+        self.known.remove(name);
+        self.unknown.insert(name.to_string());
+    }
+
+    /// Applies a line the session has run; returns a finding if a plain read of a known global did
+    /// not yield its value.
+    fn line(&mut self, line: &SLine, outcome: &Outcome, li: usize, cut: bool) -> Option<Finding> {
+        let ok = matches!(outcome, Outcome::Ok(_)) && !cut;
+        let single_read = !cut && line.stmts.len() == 1 && matches!(store_op(&line.stmts[0].src), StoreOp::Read(_));
+        if !ok && !single_read {
+            // a line that did not complete: the model does not try to know what it completed
+            for n in idents(&line.text()) {
+                self.forget(&n);
+            }
+            return None;
+        }
+        let mut last_read: Option<String> = None;
+        for st in &line.stmts {
+            last_read = None;
+            match store_op(&st.src) {
+                StoreOp::Read(n) => last_read = Some(n),
+                StoreOp::Decl(n, v) => {
+                    let again = self.declared.contains(&n);
+                    self.declared.insert(n.clone());
+                    match v {
+                        Some(v) if !again && !self.unknown.contains(&n) => {
+                            self.known.insert(n, v);
+                        }
+                        _ => self.forget(&n),
+                    }
+                }
+                StoreOp::Assign(n, v) => match v {
+                    Some(v) if self.declared.contains(&n) && !self.unknown.contains(&n) => {
+                        self.known.insert(n, v);
+                    }
+                    _ => self.forget(&n),
+                },
+                StoreOp::Other => {
+                    for n in idents(&st.src) {
+                        self.forget(&n);
+                    }
+                }
+            }
+        }
+        let name = last_read?;
+        let expected = self.known.get(&name)?.clone();
+        let got = match outcome {
+            Outcome::Ok(v) => v.clone(),
+            o => o.render(),
+        };
+        if got == expected {
+            return None;
+        }
+        Some(Finding {
+            class: "global-not-seen".into(),
+            key: format!("{}->{}", if expected.starts_with('"') { "string" } else if expected == "null" { "null" } else if expected == "ja" || expected == "nee" { "bool" } else { "int" }, outcome.kind()),
+            detail: format!(
+                "line {} ({:?}) reads the global `{}`, which completed earlier lines declared / assigned with the literal value {}; the retained compiler+machine gives {}",
+                li,
+                line.text(),
+                name,
+                expected,
+                got
+            ),
+        })
+    }
+}
+
 pub fn run_session(spec: &SessionSpec, verbose: bool) -> SessionResult {
     let mut s = Session::new();
     let mut p: Vec<String> = Vec::new();
@@ -518,6 +649,7 @@ pub fn run_session(spec: &SessionSpec, verbose: bool) -> SessionResult {
     // names declared by the part of a failed line that did not complete: the compiler knows them,
     // the machine never assigned them
     let mut poisoned: Vec<String> = Vec::new();
+    let mut store = Store::default();
     for (li, line) in spec.lines.iter().enumerate() {
         let text = line.text();
         let reads_poisoned = idents(&text).iter().any(|t| poisoned.contains(t));
@@ -537,14 +669,8 @@ pub fn run_session(spec: &SessionSpec, verbose: bool) -> SessionResult {
         if judged_by_model {
             res.lines_judged_by_model_alone += 1;
         }
-        if promised_ok != m.outcome.is_ok() && !reads_poisoned && !judged_by_model {
-            res.inconsistent = true;
-            res.inconsistent_why = format!("[{}] promised {:?}, model says {} :: {}", line.label, line.fail, m.outcome.render().chars().take(90).collect::<String>(), text.chars().take(160).collect::<String>());
-            if verbose {
-                res.transcript.push(format!("line {} discarded: generator promised {:?}, model says {}", li, line.fail, m.outcome.render()));
-            }
-            break;
-        }
+        // (decided here, acted upon after the line has run: the store model below does not depend on it)
+        let discard = promised_ok != m.outcome.is_ok() && !reads_poisoned && !judged_by_model;
         let crash_here = matches!(spec.crash, Some((l, _)) if l == li);
         let mut plan = Plan::plain();
         plan.budget = 4 * m.steps + 1000;
@@ -614,6 +740,22 @@ pub fn run_session(spec: &SessionSpec, verbose: bool) -> SessionResult {
             }
         }
         if stop {
+            break;
+        }
+        // absolute part of the property ("every line sees the global variables declared by earlier
+        // lines with their current values"): a tiny store model of literal declarations / assignments
+        // and plain reads, independent of the interpreter
+        let cut = r.injected != Injected::None;
+        if let Some(f) = store.line(line, &r.outcome, li, cut) {
+            findings.push(f);
+            break;
+        }
+        if discard {
+            res.inconsistent = true;
+            res.inconsistent_why = format!("[{}] promised {:?}, model says {} :: {}", line.label, line.fail, m.outcome.render().chars().take(90).collect::<String>(), text.chars().take(160).collect::<String>());
+            if verbose {
+                res.transcript.push(format!("line {} discarded: generator promised {:?}, model says {}", li, line.fail, m.outcome.render()));
+            }
             break;
         }
         if compile_injected_now {
@@ -830,7 +972,7 @@ fn line(label: &str, stmts: Vec<SStmt>, fail: Fail, has_value: bool, injectable:
     }
 }
 
-pub const ALPHABET: usize = 31;
+pub const ALPHABET: usize = 32;
 
 /// Template `t` at session position `pos` (names are position-based, so never re-declared).
 fn template(t: usize, pos: usize, env: &mut GEnv) -> SLine {
@@ -1057,6 +1199,11 @@ fn template(t: usize, pos: usize, env: &mut GEnv) -> SLine {
                 ),
             }
         }
+        31 => {
+            // a global whose current value is null (an `als` without `anders` whose condition is false)
+            decl(env, "null");
+            line("decl-null", vec![st(&format!("stel {} = als nee {{ 1 }};", g), true)], Fail::None, false, true)
+        }
         30 => {
             // a loop at the top level whose body defines a function with a function of its own and calls it
             let i = format!("i{}", pos);
@@ -1205,6 +1352,17 @@ impl<'a> SGen<'a> {
         match self.rng.below(10) {
             0 | 1 | 2 => {
                 // declaration
+                if self.rng.chance(1, 14) {
+                    // of a literal the store model understands (int, bool, null, plain text)
+                    let name = self.fresh();
+                    let (lit, ty) = match self.rng.below(4) {
+                        0 => (format!("{}", self.rng.below(1000)), Ty::Int),
+                        1 => ((if self.rng.chance(1, 2) { "ja" } else { "nee" }).to_string(), Ty::Bool),
+                        2 => ("als nee { 1 }".to_string(), Ty::Null),
+                        _ => (format!("\"tekst {}\"", self.rng.below(100)), Ty::Str),
+                    };
+                    return (st(&format!("stel {} = {};", name, lit), true), Some((name, ty, 0)), "decl");
+                }
                 let ty = self.with_gen(|g| g.value_ty());
                 // now and then of a name that exists already (same type; whatever a second
                 // declaration means in a single program, it means in a session)
@@ -1305,6 +1463,11 @@ impl<'a> SGen<'a> {
             }
             _ => {
                 // pure expression statement (the line's value)
+                if !self.globals.is_empty() && self.rng.chance(1, 5) {
+                    // a plain read of a global
+                    let v = self.rng.pick(&self.globals).name.clone();
+                    return (st(&format!("{};", v), false), None, "read");
+                }
                 if !self.line_funs.is_empty() && self.rng.chance(1, 2) {
                     let (fname, params, _) = self.rng.pick(&self.line_funs).clone();
                     let args: Vec<String> = params.iter().map(|t| self.with_gen(|g| g.expr(t, 1))).collect();
@@ -1944,7 +2107,7 @@ pub fn small_session(seed: u64, i: u64) -> SessionSpec {
 
 /// Quick tier: besides all sessions of length 1-2, every "sandwich" of three lines
 /// (a declaration, any failing template, an observing template) - the length-3 sessions that matter most.
-const SANDWICH_SETUP: &[usize] = &[0, 2, 3, 30];
+const SANDWICH_SETUP: &[usize] = &[0, 2, 3, 30, 31];
 const SANDWICH_FAIL: &[usize] = &[12, 13, 14, 15, 16, 17, 18, 23, 24, 27, 28];
 const SANDWICH_OBSERVE: &[usize] = &[5, 6, 7, 9, 10, 19, 20, 21, 22, 26];
 
